@@ -59,6 +59,16 @@ def base_states():
         o = h.rx([wire.window_update(1, inc)])
         assert o.kind == "ok", o.brief()
         out.append(("nearmax-" + role, client, pickle.dumps(h.conn), 2 ** 31 - 1 - 10))
+    for client in (False, True):
+        h = H.Solo(client)
+        if client:
+            h.api("send_headers", 1, H.ni(H.REQ_POST))
+        else:
+            h.rx([wire.headers(1, H.stateless_block(H.REQ))], ("headers", 1, False, False))
+            h.api("send_headers", 1, H.ni(H.RESP))
+        o = h.api("send_data", 1, b"x" * 1000)
+        assert o.kind == "ok", o.brief()
+        out.append(("sent1000-" + ("client" if client else "server"), client, pickle.dumps(h.conn), 65535 - 1000))
     # a server whose only near-maximum send window belongs to a stream it has promised but not yet started (reserved)
     h = H.Solo(False)
     for o in (h.rx([wire.headers(1, H.stateless_block(H.REQ))], ("headers", 1, False, False)),
@@ -177,7 +187,28 @@ def run_case(name, client, blob, win, ident, value, viols, outcomes):
             viols.append(_v("invalid-setting-wrong-outcome", "Settings(initial_values={%d:%d}) -> %r, expected InvalidSettingsValueError(%s)" % (
                 ident, value, res, wire.err_name(exp)), route="initial", id=idclass, expected=wire.err_name(exp), got=str(res[1])))
         outcomes["initial-rejected"] = outcomes.get("initial-rejected", 0) + 1
-    return 3
+    if name != "handshaken-server":
+        return 3
+    # --- route 4: the client's settings as a server receives them in the HTTP2-Settings header of an h2c upgrade
+    import base64
+    srv = H.new_conn(False)
+    o = H.call(srv, "initiate_upgrade_connection", base64.urlsafe_b64encode(wire.settings([(ident, value)]).payload))
+    if exp is None:
+        try:
+            got = srv.remote_settings[ident]
+        except KeyError:
+            got = None
+        if o.kind != "ok" or got != value:
+            viols.append(_v("valid-setting-rejected", "HTTP2-Settings header (%d=%d) -> %s, remote_settings shows %r" % (ident, value, o.brief(), got),
+                            route="upgrade-header", id=idclass, got=o.exc_name or "not-applied"))
+        outcomes["upgrade-header-accepted"] = outcomes.get("upgrade-header-accepted", 0) + 1
+    else:
+        if not (o.kind == "raise" and o.is_proto and int(o.code) == exp):
+            viols.append(_v("invalid-setting-wrong-outcome", "HTTP2-Settings header (%d=%d) must be refused with %s, got %s" % (
+                ident, value, wire.err_name(exp), o.brief()), route="upgrade-header", id=idclass, expected=wire.err_name(exp),
+                got=(code_class(o.code) if o.kind == "raise" and o.is_proto else (o.exc_name or "accepted"))))
+        outcomes["upgrade-header-rejected"] = outcomes.get("upgrade-header-rejected", 0) + 1
+    return 4
 
 
 def shard(job):
@@ -250,6 +281,31 @@ def extras(viols, outcomes, samples):
                                     got=(code_class(o.code) if o.kind == "raise" else "accepted")))
                 outcomes["recv-delta-boundary"] = outcomes.get("recv-delta-boundary", 0) + 1
                 samples.append({"state": name, "route": "recv", "setting": [4, v], "expected": "accepted" if okay else "FLOW_CONTROL_ERROR"})
+    # a locally requested INITIAL_WINDOW_SIZE whose acknowledgement lands a RECEIVE window exactly on / one past 2^31-1
+    for client in (False, True):
+        h = H.Solo(client)
+        h.rx([wire.settings([], ack=True)])
+        if client:
+            h.api("send_headers", 1, H.ni(H.REQ_POST))
+        else:
+            h.rx([wire.headers(1, H.stateless_block(H.REQ))], ("headers", 1, False, False))
+        o = h.api("increment_flow_control_window", (2 ** 31 - 1 - 10) - 65535, stream_id=1)
+        assert o.kind == "ok", o.brief()
+        blob = pickle.dumps(h.conn)
+        for v, okay in ((65535 + 10, True), (65535 + 11, False)):
+            conn = pickle.loads(blob)
+            o1 = H.call(conn, "update_settings", {4: v})
+            o = H.recv(conn, wire.settings([], ack=True).serialize())
+            n += 1
+            if o1.kind != "ok" or (okay and o.kind != "ok"):
+                viols.append(_v("valid-setting-rejected", "local IWS=%d acknowledged, receive window lands exactly on 2^31-1: %s / %s" % (
+                    v, o1.brief(), o.brief()), route="local-delta", id="4", got=o.exc_name or o1.exc_name))
+            gos = [f for f in o.frames if f.type == wire.GOAWAY]
+            if not okay and not (o.kind == "raise" and o.is_proto and int(o.code) == FCE and len(gos) == 1 and gos[0].f["code"] == FCE):
+                viols.append(_v("invalid-setting-wrong-outcome", "local IWS=%d acknowledged, a receive window would pass 2^31-1, but -> %s" % (v, o.brief()),
+                                route="local-delta", id="4", expected="FLOW_CONTROL_ERROR",
+                                got=(code_class(o.code) if o.kind == "raise" and o.is_proto else "accepted")))
+            outcomes["local-delta-boundary"] = outcomes.get("local-delta-boundary", 0) + 1
     return n, n
 
 
@@ -271,6 +327,6 @@ def run(ctx):
     n = 16 * 8 if ctx.tier == "thorough" else 11
     jobs = [{"ids": ids[i::n], "extras": i == 0} for i in range(n)]
     ctx.fanout("c12-grid-%s" % ctx.tier, jobs, "shard",
-               domain="%d identifiers x %d values x 3 routes x 7 base states" % (len(ids), len(VALUES)))
+               domain="%d identifiers x %d values x 3 routes x 9 base states (+ HTTP2-Settings header route)" % (len(ids), len(VALUES)))
     ctx.notes["base_states"] = [b[0] for b in _bases()]
     ctx.fanouts[-1]["states"] = len(_bases())
